@@ -15,6 +15,9 @@ Only property theorems live here; lemmas are in `GluonModel.Proofs.Memo`.
 -/
 import GluonModel.Memo
 import GluonModel.Proofs.Memo
+import GluonModel.Proofs.MemoStale
+import GluonModel.MemoPath
+import GluonModel.Proofs.MemoPath
 
 namespace GluonModel.Props.C15
 open GluonModel.Memo GluonModel.Memo.Proofs
@@ -83,11 +86,41 @@ theorem cycle_reported_fixed (ops : List Op) (m : Mod) :
   rw [engine_refines_fresh_fixed]
   exact spec_cycle_iff _ m
 
-/-
-NOT MODELLED: the *text* of the cycle path in the message. On the real code, after a reload the
-path degenerates to `X -> X` (known finding `cycle-path-not-an-import-chain:fresh-vm-names-it`);
-that part of the property is checked by the harness oracle only.
+/-! ### The printed cycle path (`GluonModel.MemoPath`: `getP`, `replayP`)
+
+FULL STATEMENT (does NOT hold for the unchanged code, see `reported_cycle_path_fails`):
+  ∀ ops m, ∀ p ∈ (getP st.srcs m pc).1, IsCyc st.srcs p      where (st, pc) = replayP ops (St.init, PCache.init)
 -/
+
+/-- On a fresh VM given any sources (arbitrary graph), every cycle path printed in the answer for
+    `import! m` is a real cycle: `x → … → x`, every step an import edge of the sources. -/
+theorem reported_cycle_path_is_real_fresh (srcs : Srcs) (m : Mod) :
+    ∀ p ∈ (getP srcs m PCache.init).1, IsCyc srcs p :=
+  (getP_cyc srcs m PCache.init (ip_init srcs)).2
+
+/-- The same on the long-lived unchanged engine after ANY history that never changed the text of an
+    existing module (still in revision 0: any number of evaluations, new modules added in between). -/
+theorem reported_cycle_path_is_real_partial (ops : List Op) (m : Mod)
+    (h0 : (replayP ops (St.init, PCache.init)).1.rev = 0) :
+    ∀ p ∈ (getP (replayP ops (St.init, PCache.init)).1.srcs m (replayP ops (St.init, PCache.init)).2).1,
+      IsCyc (replayP ops (St.init, PCache.init)).1.srcs p :=
+  (getP_cyc _ m _ (replayP_ip ops (St.init, PCache.init) (ip_init _) h0)).2
+
+/-- After a reload the unchanged code prints a path that is NOT a cycle of the sources: `m0 = 1`,
+    `m1 = 10 + import! m0`, evaluate m1, change m0 to `3 + import! m1`, evaluate m1: the message
+    names `m1 -> m1`, but m1 does not import itself. (The model reproduces the real messages exactly:
+    the printed paths are part of the compared answer; known finding
+    `cycle-path-not-an-import-chain:fresh-vm-names-it`.) -/
+theorem reported_cycle_path_fails :
+    ∃ ops m p, p ∈ (getP (replayP ops (St.init, PCache.init)).1.srcs m (replayP ops (St.init, PCache.init)).2).1 ∧
+      ¬ IsCyc (replayP ops (St.init, PCache.init)).1.srcs p := by
+  refine ⟨[.set 0 ⟨.int, 1, []⟩, .set 1 ⟨.int, 10, [(0, true)]⟩, .get 1, .set 0 ⟨.int, 3, [(1, true)]⟩],
+    1, [1, 1], by decide, ?_⟩
+  intro ⟨x, mid, _, hc⟩
+  have he : Edge _ 1 1 := hc.1
+  rw [edge_iff] at he
+  revert he
+  decide
 
 /-! ## Evaluated at most once -/
 
@@ -103,6 +136,80 @@ theorem evaluated_at_most_once (fixed : Bool) (ops : List Op) :
 theorem log_only_grows_within_revision (fixed : Bool) (st : St) (op : Op)
     (h : (step fixed st op).rev = st.rev) : st.cache.log <+: (step fixed st op).cache.log :=
   step_log_prefix fixed st op h
+
+
+/-! ## The exact staleness boundary of the unchanged engine (round 5)
+
+`lateMods ops` (computed by `lateStep` along the history): the modules that were added as a NEW
+module (`add_module`, Vacant branch, src/query.rs:213-215) at a moment when an evaluation of the
+current revision had already demanded them (directly or through an import: their "missing module"
+answer is memoised), and no module text has been changed since (a changed text starts a new
+revision and empties the list). `effSrcs srcs late` = `srcs` without the sources of `late`. -/
+
+/-- For EVERY history the unchanged engine answers exactly what a fresh VM answers on the latest
+    sources with the late modules left out. -/
+theorem engine_refines_effective (ops : List Op) (m : Mod) :
+    (getM (replay false ops St.init) m).1 = spec (effSrcs (latest ops []) (lateMods ops)) m := by
+  have h := getM_eff _ (lateMods ops) m (replay_inv2 ops St.init [] inv2_init)
+  rw [h.1, replay_srcs]
+  rfl
+
+/-- The sharp boundary: after a history the unchanged engine is stale (for some module) IFF some
+    late module would not answer "missing module" on a fresh VM, i.e. iff some late module reaches an
+    import cycle or has all the modules it reaches present. Every other history is fresh. -/
+theorem engine_stale_iff (ops : List Op) :
+    (∃ m, (getM (replay false ops St.init) m).1 ≠ spec (latest ops []) m) ↔
+      ∃ x ∈ lateMods ops, (ReachesCycle (latest ops []) x ∨
+        ∀ y, Reach (latest ops []) x y → (latest ops []).lookup y ≠ none) := by
+  have h := stale_iff_late _ (lateMods ops) (replay_inv2 ops St.init [] inv2_init)
+  rw [replay_srcs] at h
+  refine h.trans ⟨?_, ?_⟩
+  · intro ⟨x, hx, hne⟩
+    refine ⟨x, hx, ?_⟩
+    apply Classical.byContradiction
+    intro hno
+    apply hne
+    rw [spec_missing_iff]
+    refine ⟨fun hc => hno (.inl hc), ?_⟩
+    apply Classical.byContradiction
+    intro hall
+    apply hno
+    right
+    intro y hy hn
+    exact hall ⟨y, hy, hn⟩
+  · intro ⟨x, hx, hor⟩
+    refine ⟨x, hx, ?_⟩
+    rw [Ne, spec_missing_iff]
+    intro ⟨hnc, y, hy, hn⟩
+    cases hor with
+    | inl hc => exact hnc hc
+    | inr hall => exact hall y hy hn
+
+/-- Per module: an evaluation of `m` is fresh unless `m` reaches a late module. -/
+theorem engine_fresh_unless_late_reachable (ops : List Op) (m : Mod)
+    (hr : ∀ y, Reach (latest ops []) m y → y ∉ lateMods ops) :
+    (getM (replay false ops St.init) m).1 = spec (latest ops []) m := by
+  have h := fresh_of_no_late_reachable _ (lateMods ops) (replay_inv2 ops St.init [] inv2_init) m
+    (by rw [replay_srcs]; exact hr)
+  rw [h, replay_srcs]
+  rfl
+
+/-- Cycle reporting of the unchanged engine, all histories, arbitrary graphs: a cyclic dependency
+    is reported iff an import cycle is reachable in the effective sources (= the latest sources when
+    no module is late). -/
+theorem cycle_reported_asis (ops : List Op) (m : Mod) :
+    (getM (replay false ops St.init) m).1 = .err .cycle ↔
+      ReachesCycle (effSrcs (latest ops []) (lateMods ops)) m := by
+  rw [engine_refines_effective]
+  exact spec_cycle_iff _ m
+
+/-- "Evaluated once", over whole histories (either engine): in the trace of all module bodies run
+    by the steps of a history, tagged with the revision they ran in, no (revision, module) pair
+    occurs twice. -/
+theorem module_body_runs_at_most_once_per_revision (fixed : Bool) (ops : List Op) :
+    (runsOf fixed St.init ops).Nodup := by
+  have h := (runsOf_nodup fixed ops St.init J_empty).1
+  simpa [St.init] using h
 
 /-! ## Non-vacuity -/
 
@@ -137,5 +244,39 @@ example : (getM (replay false h3 St.init) 3).1 = .ok .int 6 := by decide
 
 /-- the hypothesis of `engine_refines_fresh_partial` fails on the witness of `…_fails` -/
 example : safeFrom St.init [.set 1 (mInt 10 [(0, true)]), .get 1, .set 0 (mInt 1 [])] = false := by decide
+
+/-- the witness of `…_fails`: m0 is late and answers 1 on a fresh VM -/
+def h4 : List Op := [.set 1 (mInt 10 [(0, true)]), .get 1, .set 0 (mInt 1 [])]
+example : lateMods h4 = [0] := by decide
+example : spec (latest h4 []) 0 = .ok .int 1 := by decide
+example : (getM (replay false h4 St.init) 1).1 = .err .missing := by decide
+/-- a late module that is harmless: it imports a module that does not exist -/
+def h5 : List Op := [.set 1 (mInt 10 [(0, true)]), .get 1, .set 0 (mInt 1 [(2, true)])]
+example : lateMods h5 = [0] := by decide
+example : spec (latest h5 []) 0 = .err .missing := by decide
+example : (getM (replay false h5 St.init) 1).1 = spec (latest h5 []) 1 := by decide
+/-- …and becomes harmful when m2 (never demanded, NOT late itself) is added afterwards -/
+def h6 : List Op := h5 ++ [.set 2 (mInt 5 [])]
+example : lateMods h6 = [0] := by decide
+example : (getM (replay false h6 St.init) 1).1 = .err .missing ∧ spec (latest h6 []) 1 = .ok .int 16 := by decide
+/-- a new module added after evaluations that never demanded it is not late (outside `safeFrom`) -/
+def h7 : List Op := [.set 0 (mInt 1 []), .get 0, .set 1 (mInt 10 [(0, true)])]
+example : safeFrom St.init h7 = false ∧ lateMods h7 = [] := by decide
+/-- a changed text heals -/
+example : lateMods (h4 ++ [.set 1 (mInt 11 [(0, true)])]) = [] := by decide
+example : runsOf false St.init (h3 ++ [.set 0 (mInt 2 []), .get 3]) =
+    [(0, 0), (0, 1), (0, 2), (0, 3), (1, 0), (1, 1), (1, 2), (1, 3)] := by decide
+
+/-- fresh VM: the 2-cycle entered at m1 is printed in full; after the reload it degenerates -/
+example : (getP (latest h2 []) 1 PCache.init).1 = [[1, 0, 1]] := by decide
+example : (getP (replayP h2 (St.init, PCache.init)).1.srcs 1 (replayP h2 (St.init, PCache.init)).2).1 = [[1, 1]] := by
+  decide
+/-- a history that stays in revision 0 and reports a 3-cycle entered from outside -/
+def h8 : List Op :=
+  [.set 5 (mInt 1 []), .get 5, .set 0 (mInt 3 [(1, true)]), .set 1 (mInt 1 [(2, true)]),
+   .set 2 (mInt 1 [(0, true)]), .set 4 (mInt 1 [(0, true)])]
+example : (replayP h8 (St.init, PCache.init)).1.rev = 0 := by decide
+example : (getP (replayP h8 (St.init, PCache.init)).1.srcs 4 (replayP h8 (St.init, PCache.init)).2).1 = [[0, 1, 2, 0]] := by
+  decide
 
 end GluonModel.Props.C15
